@@ -637,6 +637,9 @@ func (g *G) validation(a *m.Attr, depth int) *m.Validation {
 			g.feat("string-length")
 		}
 	case k == m.Bytes:
+		if g.avoid("C14-bytes-length-applied-to-base64-text") {
+			return nil
+		}
 		lo := rapid.IntRange(0, 3).Draw(t, "bminlen")
 		v.MinLen = ip(lo)
 		v.MaxLen = ip(lo + rapid.IntRange(0, 8).Draw(t, "blenspan"))
@@ -688,6 +691,9 @@ func (g *G) validation(a *m.Attr, depth int) *m.Validation {
 		}
 		g.feat("numeric-bound")
 	case k == m.Array || k == m.Map:
+		if k == m.Map && g.avoid("C14-map-length-not-documented") {
+			return nil
+		}
 		lo := rapid.IntRange(0, 3).Draw(t, "aminlen")
 		hi := lo + rapid.IntRange(0, 4).Draw(t, "alenspan")
 		if hi == 0 {
